@@ -869,6 +869,14 @@ const SMALL: &[&str] = &[
     "(1 + 2",
     "let x = in",
     "rec let x = 1\n#[a]\nlet y = 2\nx",
+    // records with TYPE fields, type declarations, implicit arguments (seeds for the record mutations)
+    "type Test = Int\nlet a = { Test, x = 1 }\nlet b = { Test, x = 2 }\n[a, b]",
+    "type Test = Int\nlet r = { Test, x = 1, y = \"s\" }\nlet { Test, x } = r\nx",
+    "type Elem = String\ntype Key = Int\nlet m = { Key, Elem, get = \\k -> \"v\", size = 0 }\nlet n = { Key, Elem, get = \\k -> \"w\", size = 1 }\nif m.size #Int== 0 then m else n",
+    "type Show a = { show : a -> String }\nlet show ?s : [Show a] -> a -> String = s.show\nlet int_show : Show Int = { show = \\_ -> \"i\" }\nshow 1",
+    "let f r : { x : Int, y : Int } -> Int = r.x\nlet g s : { x : Int | r } -> Int = s.x\nf { x = 1, y = 2 } #Int+ g { x = 1, z = 3 }",
+    "rec type Tree a = | Leaf | Node (Forest a)\ntype Forest a = { items : Array (Tree a) }\nin\nlet t : Tree Int = Node { items = [Leaf] }\n{ Tree, Forest, t }",
+    "type Pair a b = { fst : a, snd : b }\nlet swap p : Pair a b -> Pair b a = { fst = p.snd, snd = p.fst }\nlet { fst, snd } = swap { fst = 1, snd = \"s\" }\n{ Pair, swap, fst }",
 ];
 
 struct Seeds {
@@ -956,6 +964,107 @@ const SOUP_TEXT: &[&str] = &[
     "#Int+", "r#\"raw\"#", "0x1f", "-1", "é", "'", "\"", "/*", "#!", "\t", "λ", "1.", "1x", "0x", "r#x",
 ];
 
+/// Mutate the fields of one `{ … }` group (record expression, pattern or type): drop, duplicate,
+/// swap two fields, or move a field into another group.  Fields are the comma-separated runs of
+/// pieces at depth 0 of the group, so type fields (`{ Test, x = 1 }`) are moved like value fields.
+fn mutate_record(rng: &mut Rng, p: &mut Vec<(String, String)>) -> bool {
+    let opens: Vec<usize> = (0..p.len()).filter(|i| p[*i].1 == "{").collect();
+    if opens.is_empty() {
+        return false;
+    }
+    let group = |p: &Vec<(String, String)>, o: usize| -> Option<(usize, Vec<(usize, usize)>)> {
+        // returns (index of the closing brace, field ranges [a, b) )
+        let mut depth = 0i32;
+        let mut fields = vec![];
+        let mut start = o + 1;
+        for i in o..p.len() {
+            match p[i].1.as_str() {
+                "{" | "(" | "[" => depth += 1,
+                "}" | ")" | "]" => {
+                    depth -= 1;
+                    if depth == 0 {
+                        if i > start {
+                            fields.push((start, i));
+                        }
+                        return if p[i].1 == "}" { Some((i, fields)) } else { None };
+                    }
+                }
+                "," if depth == 1 => {
+                    if i > start {
+                        fields.push((start, i));
+                    }
+                    start = i + 1;
+                }
+                _ => {}
+            }
+        }
+        None
+    };
+    for _ in 0..6 {
+        let o = *rng.pick(&opens);
+        let (close, fields) = match group(p, o) {
+            Some(x) if !x.1.is_empty() => x,
+            _ => continue,
+        };
+        let fi = rng.below(fields.len() as u64) as usize;
+        let (a, b) = fields[fi];
+        let field: Vec<(String, String)> = p[a..b].to_vec();
+        match rng.below(4) {
+            0 => {
+                // drop the field together with one adjacent comma
+                let (mut a2, mut b2) = (a, b);
+                if b < close && p[b].1 == "," {
+                    b2 = b + 1;
+                } else if a > o + 1 && p[a - 1].1 == "," {
+                    a2 = a - 1;
+                }
+                p.drain(a2..b2);
+            }
+            1 => {
+                // duplicate it
+                let mut ins = vec![(" ".to_string(), ",".to_string())];
+                ins.extend(field.iter().cloned());
+                let at = b;
+                for (k, x) in ins.into_iter().enumerate() {
+                    p.insert(at + k, x);
+                }
+            }
+            2 if fields.len() >= 2 => {
+                let fj = (fi + 1 + rng.below(fields.len() as u64 - 1) as usize) % fields.len();
+                let (c, d) = fields[fj];
+                let other: Vec<(String, String)> = p[c..d].to_vec();
+                // replace the later range first
+                let ((lo, lo_new), (hi, hi_new)) = if a < c {
+                    (((a, b), other), ((c, d), field))
+                } else {
+                    (((c, d), field), ((a, b), other))
+                };
+                p.splice(hi.0..hi.1, hi_new);
+                p.splice(lo.0..lo.1, lo_new);
+            }
+            _ => {
+                // copy the field into another group
+                let o2 = *rng.pick(&opens);
+                if let Some((close2, _)) = group(p, o2) {
+                    let empty = close2 == o2 + 1;
+                    let mut ins: Vec<(String, String)> = vec![];
+                    if !empty {
+                        ins.push(("".to_string(), ",".to_string()));
+                    }
+                    for (k, x) in field.iter().enumerate() {
+                        ins.push((if k == 0 { " ".to_string() } else { x.0.clone() }, x.1.clone()));
+                    }
+                    for (k, x) in ins.into_iter().enumerate() {
+                        p.insert(close2 + k, x);
+                    }
+                }
+            }
+        }
+        return true;
+    }
+    false
+}
+
 fn gen_text(rng: &mut Rng, seeds: &Seeds) -> (String, &'static str) {
     let mode = rng.below(100);
     if mode < 8 {
@@ -1005,7 +1114,13 @@ fn gen_text(rng: &mut Rng, seeds: &Seeds) -> (String, &'static str) {
         return (s, "soup");
     }
     // grammar-aware mutation of a valid program
-    let seed = rng.pick(&seeds.texts).clone();
+    // a quarter of the mutants start from the small programs with type fields / implicit arguments
+    let seed = if rng.chance(1, 4) {
+        let w: &&str = rng.pick(&SMALL[SMALL.len() - 7..]);
+        w.to_string()
+    } else {
+        rng.pick(&seeds.texts).clone()
+    };
     let maxw = if rng.chance(1, 3) { 4096 } else { 600 };
     let base = window(rng, &seed, maxw);
     if mode < 40 {
@@ -1022,7 +1137,12 @@ fn gen_text(rng: &mut Rng, seeds: &Seeds) -> (String, &'static str) {
             break;
         }
         let i = rng.below(p.len() as u64) as usize;
-        match rng.below(7) {
+        match rng.below(10) {
+            7 | 8 | 9 => {
+                if mutate_record(rng, &mut p) {
+                    label = "mut:record-field";
+                }
+            }
             0 => {
                 p.remove(i);
                 label = "mut:delete";
@@ -1074,6 +1194,258 @@ fn gen_text(rng: &mut Rng, seeds: &Seeds) -> (String, &'static str) {
         }
     }
     (join(&p, &tail), label)
+}
+
+// ------------------------------------------------------------------------------------------
+// Error-path family: per error variant, a generator of small ill-formed programs with varied
+// data (names, field orders, value/type fields, direction of the unification, open/closed rows).
+// ------------------------------------------------------------------------------------------
+
+struct G<'a> {
+    rng: &'a mut Rng,
+}
+
+impl<'a> G<'a> {
+    fn id(&mut self) -> String {
+        let w: &&str = self.rng.pick(&["x", "y", "z", "foo", "bar", "value", "f", "g", "n"]);
+        w.to_string()
+    }
+    fn ids(&mut self, n: usize) -> Vec<String> {
+        let pool = ["a", "b", "c", "d", "x", "y", "z", "w", "k", "v"];
+        let start = self.rng.below(pool.len() as u64) as usize;
+        (0..n).map(|i| pool[(start + i) % pool.len()].to_string()).collect()
+    }
+    fn tname(&mut self) -> String {
+        let w: &&str = self.rng.pick(&["Test", "T", "Foo", "Elem", "Key", "Wrap"]);
+        w.to_string()
+    }
+    /// (type text, literal of that type)
+    fn ty(&mut self) -> (String, String) {
+        match self.rng.below(5) {
+            0 => ("Int".into(), format!("{}", self.rng.below(100))),
+            1 => ("String".into(), "\"s\"".into()),
+            2 => ("Float".into(), "1.5".into()),
+            3 => ("Char".into(), "'c'".into()),
+            _ => ("()".into(), "()".into()),
+        }
+    }
+    fn shuffle<T>(&mut self, v: &mut Vec<T>) {
+        for i in (1..v.len()).rev() {
+            let j = self.rng.below(i as u64 + 1) as usize;
+            v.swap(i, j);
+        }
+    }
+    /// A record expression with the given type fields and value fields, in random order.
+    fn record(&mut self, tfields: &[String], vfields: &[(String, String)]) -> String {
+        let mut parts: Vec<String> = tfields.to_vec();
+        for (n, v) in vfields {
+            parts.push(if self.rng.chance(1, 6) { format!("{} = ({})", n, v) } else { format!("{} = {}", n, v) });
+        }
+        self.shuffle(&mut parts);
+        if parts.is_empty() {
+            "{}".into()
+        } else {
+            format!("{{ {} }}", parts.join(", "))
+        }
+    }
+    /// Two things that must unify, placed in a random unifying position, in the given order.
+    fn unify_site(&mut self, a: &str, b: &str) -> String {
+        match self.rng.below(6) {
+            0 => format!("[{}, {}]", a, b),
+            1 => format!("if True then {} else {}", a, b),
+            2 => format!("let f x y : a -> a -> a = x\nf ({}) ({})", a, b),
+            3 => format!("let r = {}\nlet s = {}\n[r, s]", a, b),
+            4 => format!("match 1 with\n| 0 -> {}\n| _ -> {}", a, b),
+            _ => format!("let g h : (a -> Int) -> a -> a -> Int = \\x y -> h x\ng (\\_ -> 1) ({}) ({})", a, b),
+        }
+    }
+}
+
+/// One ill-formed program aimed at one error variant; returns (text, family, implicit prelude).
+fn gen_error_program(rng: &mut Rng) -> (String, String, bool) {
+    let mut g = G { rng };
+    let fam = match g.rng.below(50) {
+        n if n >= 46 => 29,
+        n => n,
+    };
+    let (x, y) = (g.id(), g.tname());
+    let (t1, l1) = g.ty();
+    let (t2, l2) = g.ty();
+    let fs = g.ids(4);
+    let bool_decl = "type Bool = | False | True\n";
+    let mut prelude = false;
+    let (name, body): (&str, String) = match fam {
+        0 => ("UndefinedVariable", format!("let {} = {}\n{}q", x, l1, x)),
+        1 => ("NotAFunction", format!("let {} = {}\n{} {} {}", x, l1, x, l2, l1)),
+        2 => ("UndefinedType", match g.rng.below(3) {
+            0 => format!("let {} : {}q = {}\n{}", x, y, l1, x),
+            1 => format!("type {} = {{ f : Missing{} }}\n1", y, y),
+            _ => format!("let f v : {} -> Undefined a = v\nf", t1),
+        }),
+        3 => ("UndefinedField", match g.rng.below(3) {
+            0 => format!("let r = {{ {} = {}, {} = {} }}\nr.{}", fs[0], l1, fs[1], l2, fs[2]),
+            1 => format!("type {} = {}\nlet r = {{ {}, {} = {} }}\nr.{}", y, t1, y, fs[0], l1, fs[1]),
+            _ => format!("let {{ {} }} = {{ {} = {} }}\n1", y, fs[0], l1),
+        }),
+        4 => ("PatternError", format!(
+            "type {y} = | A {t1} | B\nmatch A {l1} with\n| A p q -> 1\n| B{extra} -> 2", y = y, t1 = t1, l1 = l1,
+            extra = if g.rng.chance(1, 2) { " z" } else { "" })),
+        5 => ("TypeMismatch", match g.rng.below(4) {
+            0 => format!("let {} : {} = {}\n{}", x, if t1 == t2 { "Array Int".to_string() } else { t1.clone() }, l2, x),
+            1 => format!("1 #Int+ {}", if l2.parse::<i64>().is_ok() { "\"s\"".to_string() } else { l2.clone() }),
+            2 => format!("{}if {} then 1 else 2", bool_decl, l2),
+            _ => format!("let f v : {} -> {} = v\nf {}", t1, t1, if t1 == t2 { "[1]".to_string() } else { l2.clone() }),
+        }),
+        6 | 7 | 8 | 9 => {
+            // records that differ in value and/or TYPE fields, both directions, closed rows
+            let nt = g.rng.below(3) as usize;
+            let tnames: Vec<String> = ["Test", "Elem", "Key"].iter().take(nt).map(|s| s.to_string()).collect();
+            let decls: String = tnames.iter().map(|t| format!("type {} = {}\n", t, t1)).collect();
+            let nv = 1 + g.rng.below(3) as usize;
+            let vf: Vec<(String, String)> = fs.iter().take(nv).map(|f| (f.clone(), l1.clone())).collect();
+            let full = g.record(&tnames, &vf);
+            // the other record: drop some type fields and/or value fields, or add one
+            let mut t2v = tnames.clone();
+            let mut v2 = vf.clone();
+            match g.rng.below(5) {
+                0 => { t2v.clear(); }
+                1 => { t2v.pop(); }
+                2 => { v2.pop(); }
+                3 => { v2.push((fs[3].clone(), l2.clone())); }
+                _ => { t2v.clear(); v2.push((fs[3].clone(), l2.clone())); }
+            }
+            let other = g.record(&t2v, &v2);
+            let (a, b) = if g.rng.chance(1, 2) { (full, other) } else { (other, full) };
+            ("MissingFields", format!("{}{}{}", bool_decl, decls, g.unify_site(&a, &b)))
+        }
+        10 => ("MissingFields:annotation", {
+            let tdecl = format!("type {} = {}\n", y, t1);
+            match g.rng.below(4) {
+                0 => format!("{}let r : {{ {} : {} }} = {{ {}, {} = {} }}\nr", tdecl, fs[0], t1, y, fs[0], l1),
+                1 => format!("{}let r : {{ {} : {}, {} : {} }} = {{ {} = {} }}\nr", tdecl, fs[0], t1, fs[1], t2, fs[0], l1),
+                2 => format!("{}let f r : {{ {}, {} : {} }} -> Int = 1\nf {{ {} = {} }}", tdecl, y, fs[0], t1, fs[0], l1),
+                _ => format!("{}let f r : {{ {} : {} }} -> Int = 1\nf {{ {}, {} = {} }}", tdecl, fs[0], t1, y, fs[0], l1),
+            }
+        }),
+        11 => ("FieldMismatch", {
+            let a = format!("{{ {} = {}, {} = {} }}", fs[0], l1, fs[1], l2);
+            let b = format!("{{ {} = {}, {} = {} }}", fs[0], l1, fs[2], l2);
+            format!("{}{}", bool_decl, g.unify_site(&a, &b))
+        }),
+        12 => ("OpenRows", match g.rng.below(3) {
+            0 => format!("let f r : {{ {} : {} | r }} -> {} = r.{}\nf {{ {} = {} }}", fs[0], t1, t1, fs[0], fs[1], l1),
+            1 => format!("let f r = r.{}\nf {{ {} = {} }}", fs[0], fs[1], l1),
+            _ => format!("type {} = {}\nlet f r : {{ {}, {} : {} | r }} -> Int = 1\nf {{ {} = {}, {} = {} }}", y, t1, y, fs[0], t1, fs[0], l1, fs[1], l2),
+        }),
+        13 => ("SelfRecursiveAlias", match g.rng.below(2) {
+            0 => format!("type {} = {}\nlet v : {} = {}\nv", y, y, y, l1),
+            _ => format!("rec type A = B\ntype B = A\nin\nlet v : A = {}\nv", l1),
+        }),
+        14 => ("EscapingSkolem", match g.rng.below(6) {
+            3 => "let g : forall a . (forall b . b -> a) -> a = \\f -> f 1\ng (\\v -> v)".to_string(),
+            4 => "type T = { id : forall a . a -> a }\nlet mk v : b -> T = { id = \\w -> v }\nmk".to_string(),
+            5 => "let f : (forall a . a -> a) -> Int = \\g -> g 1\nlet r = \\v -> f v\nr".to_string(),
+            0 => format!("let f v : forall a . a -> a = {}\nf", l1),
+            1 => "let f g : (forall a . a -> a) -> Int = g 1\nlet h v : Int -> Int = v\nf h".to_string(),
+            _ => format!("let k : forall a . a = {}\nk", l1),
+        }),
+        15 => ("Occurs", match g.rng.below(3) {
+            0 => "\\v -> v v".to_string(),
+            1 => format!("let f {} = f\nf", x),
+            _ => "let f v = [v, [v]]\nf".to_string(),
+        }),
+        16 => ("KindError", match g.rng.below(4) {
+            0 => format!("let v : {} {} = {}\nv", t1, t2, l1),
+            1 => format!("type {} a = a {}\nlet v : {} Int = 1\nv", y, t1, y),
+            2 => format!("type {} a = | A a\nlet v : {} = A 1\nv", y, y),
+            _ => format!("type {} = | A Array\n1", y),
+        }),
+        17 => ("RecursionCheck", match g.rng.below(6) {
+            3 => format!("let f v = v\nrec let {} = f {}\n{}", x, x, x),
+            4 => format!("rec let {} = match {} with | _ -> 1\n{}", x, x, x),
+            5 => format!("rec let {} = {{ a = 1 #Int+ {}.a }}\n{}", x, x, x),
+            0 => format!("rec let {} = {}\n{}", x, x, x),
+            1 => "rec let a = b\nlet b = a\na".to_string(),
+            _ => format!("rec let {} =\n    let q = {}\n    q\n{}", x, x, x),
+        }),
+        18 => ("DuplicateTypeDefinition", format!("rec\ntype {} = {}\ntype {} = {}\nin 1", y, t1, y, t2)),
+        19 => ("DuplicateField", match g.rng.below(3) {
+            0 => format!("{{ {} = {}, {} = {} }}", fs[0], l1, fs[0], l2),
+            1 => format!("let {{ {}, {} }} = {{ {} = {} }}\n1", fs[0], fs[0], fs[0], l1),
+            _ => format!("type {} = {}\n{{ {}, {}, {} = {} }}", y, t1, y, y, fs[0], l1),
+        }),
+        20 => ("InvalidProjection", format!("let v = {}\nv.{}", l1, fs[0])),
+        21 => ("UndefinedRecord", match g.rng.below(2) {
+            0 => format!("let {{ {}qq, {}rr }} = 1\n1", fs[0], fs[1]),
+            _ => format!("\\{{ {}zz }} -> 1", fs[0]),
+        }),
+        22 => ("EmptyCase", "match 1 with\n".to_string()),
+        23 => ("MissingImplicit", format!(
+            "type Show a = {{ show : a -> String }}\nlet show ?s : [Show a] -> a -> String = s.show\nshow {}", l1)),
+        24 => ("AmbiguousImplicit", format!(
+            "#[implicit]\ntype Show a = {{ show : a -> String }}\nlet show ?s : [Show a] -> a -> String = s.show\nlet i1 : Show {t} = {{ show = \\_ -> \"1\" }}\nlet i2 : Show {t} = {{ show = \\_ -> \"2\" }}\nshow {l}", t = t1, l = l1)),
+        25 => ("LoopInImplicitResolution", "#[implicit]\ntype Show a = { show : a -> String }\nlet show ?s : [Show a] -> a -> String = s.show\ntype L a = | N | C a (L a)\nlet list_show ?d : [Show (L a)] -> Show (L a) = { show = \\_ -> \"\" }\nshow (C 1 N)".to_string()),
+        26 => ("TypeConstructorReturnsWrongType", format!("type {} a = | A : Int -> Other{} a\nA 1", y, y)),
+        27 => ("ExtraArgument", format!("let f v : {} -> {} = v\nf {} {} {}", t1, t1, l1, l2, l1)),
+        28 => ("UndefinedFlatMapInDo", format!("do {} = {}\n{}", x, l1, x)),
+        29 => ("Token", {
+            let w: &&str = g.rng.pick(&["''", "'ab'", "\"abc", "\"\\q\"", "'\\q'", "r#x", "99999999999999999999", "0x8000000000000000",
+                "-0x8000000000000001", "10x1", "0x", "0xg", "3bs", "12.3a", "1x", "/* open", "'", "'a", "\u{7f}", "`"]);
+            format!("let {} = {}\n{}", x, w, x)
+        }),
+        30 => ("Layout", format!("let {} =\n        let q = 1\n    q\n  {}", x, x)),
+        31 => ("UnexpectedToken", {
+            let w: &&str = g.rng.pick(&["let = 1", "type = Int", "1 +", "( 1", "{ x = }", "[1, ]", "\\ -> 1", "match with", "if then else", "let x 1", ") 1", "in 1", "| A"]);
+            w.to_string()
+        }),
+        32 => ("Infix", match g.rng.below(4) {
+            0 => "#[infix(left, 4)]\nlet (+++) a b = a\n#[infix(right, 4)]\nlet (***) a b = a\n1 +++ 2 *** 3".to_string(),
+            1 => "let (+++) a b = a\n1 +++ 2".to_string(),
+            2 => "#[infix(up, 4)]\nlet (+++) a b = a\n1 +++ 2".to_string(),
+            _ => "#[infix(left, x)]\nlet (+++) a b = a\n1 +++ 2".to_string(),
+        }),
+        33 => ("Import", {
+            let w: &&str = g.rng.pick(&["import! std.does_not_exist", "import! 1", "import!", "import! std.int std.float", "import! \"std/nothing.glu\""]);
+            format!("let m = {}\nm", w)
+        }),
+        34 => ("Derive", {
+            let w: &&str = g.rng.pick(&["#[derive(Nothing)]\ntype T = | A\n1", "#[derive(Show)]\ntype T = Int\n1", "#[derive(Eq)]\ntype T = { f : Int -> Int }\n1",
+                "#[derive(Show, Show)]\ntype T = | A Int\n1", "#[derive]\ntype T = | A\n1"]);
+            w.to_string()
+        }),
+        35 => ("Attribute", {
+            let w: &&str = g.rng.pick(&["#[doc]\nlet x = 1\nx", "#[infix]\nlet x = 1\nx", "#[implicit(1)]\ntype T = Int\n1", "#[unknown(a, b)]\nlet x = 1\nx"]);
+            w.to_string()
+        }),
+        36 => ("VariantPattern", format!(
+            "type {y} = | A {t} | B\nlet v = A {l}\nmatch v with\n| C q -> 1\n| A {{ f }} -> 2\n| \"s\" -> 3", y = y, t = t1, l = l1)),
+        37 => ("RecordPatternTypeField", match g.rng.below(3) {
+            0 => format!("type {y} = {t}\nlet r = {{ {y}, {f} = {l} }}\nlet {{ {y}, {f}, {g2} }} = r\n{f}", y = y, t = t1, f = fs[0], g2 = fs[1], l = l1),
+            1 => format!("let r = {{ {f} = {l} }}\nlet {{ {y}, {f} }} = r\n{f}", y = y, f = fs[0], l = l1),
+            _ => format!("type {y} = {t}\nlet r = {{ {y}, {f} = {l} }}\nlet {{ {y} = Other, {f} }} = r\n{f}", y = y, t = t1, f = fs[0], l = l1),
+        }),
+        38 => ("AliasMismatch", format!(
+            "type {y} a = {{ v : a }}\nlet p : {y} {t1} = {{ v = {l2} }}\nlet q : {y} {t2} = p\nq", y = y, t1 = t1, t2 = if t1 == t2 { "(Array Int)".to_string() } else { t2.clone() }, l2 = l2)),
+        39 => ("VariantMismatch", format!(
+            "type A = | X {t} | Y\ntype B = | X2 {t} | Y2\nlet f v : A -> Int = 1\nf (X2 {l})\n", t = t1, l = l1)),
+        40 => ("ArrayMismatch", format!("[{}, {}, [{}]]", l1, if l1 == l2 { "\"q\"".to_string() } else { l2.clone() }, l1)),
+        41 => ("GeneralizeAnnotation", match g.rng.below(2) {
+            0 => "let f v : a -> b = v\nf".to_string(),
+            _ => "let mk _ : () -> (forall a . a -> a) = \\v -> 1\nmk".to_string(),
+        }),
+        42 => {
+            prelude = true;
+            ("PreludeImplicit", match g.rng.below(3) {
+                0 => "let f v = v == v\nf (\\w -> w)".to_string(),
+                1 => format!("show (\\{} -> 1)", x),
+                _ => "1 + \"s\"".to_string(),
+            })
+        }
+        43 => ("ProjectionOnType", format!("type {y} = {{ f : {t} }}\nlet v : {y} = {{ f = {l} }}\nv.g.h", y = y, t = t1, l = l1)),
+        44 => ("CyclicType", "rec type A = { b : B }\ntype B = | MkB A C\nin\nlet v : A = 1\nv".to_string()),
+        _ => ("ForallMisuse", format!("let f : forall a a . a -> {} = \\v -> {}\nf {}", t1, l2, l1)),
+    };
+    (body, format!("err:{}", name), prelude)
 }
 
 fn clip(mut s: String) -> String {
@@ -1165,16 +1537,25 @@ struct ErrReport {
     n: usize,
     kinds: BTreeSet<String>,
     problems: Vec<(String, String)>, // (fingerprint tail, description)
+    variants: BTreeMap<String, u64>,  // structural error-variant label -> count
 }
 
-fn check_infile<E>(stage: &str, e: &base::error::InFile<E>, rep: &mut ErrReport)
-where
+fn check_infile<E>(
+    stage: &str,
+    e: &base::error::InFile<E>,
+    rep: &mut ErrReport,
+    label: &dyn Fn(&E) -> Vec<String>,
+) where
     E: std::fmt::Display + std::fmt::Debug + base::error::AsDiagnostic,
 {
     for sp in e.errors().iter() {
         rep.n += 1;
         let kind = variant_name(&sp.value);
         rep.kinds.insert(format!("{}:{}", stage, kind));
+        let labels = label(&sp.value);
+        for l in &labels {
+            *rep.variants.entry(l.clone()).or_insert(0) += 1;
+        }
         if let Some(p) = span_problem(e.source(), sp.span) {
             rep.problems.push((
                 format!("span:{}:{}:{}", stage, kind, p),
@@ -1186,6 +1567,23 @@ where
                     sp.span.end().to_usize(),
                     p
                 ),
+            ));
+        }
+        // every single error must render on its own: Display and the diagnostic (labels, help)
+        let first = labels.first().cloned().unwrap_or_else(|| format!("{}:{}", stage, kind));
+        if let Err(p) = gv::catch(|| sp.value.to_string().len()) {
+            rep.problems.push((
+                format!("render-panic:{}:{}", first, LAST_PANIC.with(|l| l.borrow().clone())),
+                format!("Display of a {} error ({}) panicked: {}", stage, first, p),
+            ));
+        }
+        if let Err(p) = gv::catch(|| {
+            let d = base::error::AsDiagnostic::as_diagnostic(sp, e.source());
+            d.message.len() + d.labels.iter().map(|l| l.message.len()).sum::<usize>() + d.notes.len()
+        }) {
+            rep.problems.push((
+                format!("render-panic:{}:{}", first, LAST_PANIC.with(|l| l.borrow().clone())),
+                format!("as_diagnostic of a {} error ({}) panicked: {}", stage, first, p),
             ));
         }
     }
@@ -1208,11 +1606,102 @@ where
     }
 }
 
+fn label_parse(e: &gluon_parser::Error) -> Vec<String> {
+    use gluon_parser::Error as P;
+    vec![match e {
+        P::Token(t) => format!("parse:Token:{}", variant_name(t)),
+        P::Layout(t) => format!("parse:Layout:{}", variant_name(t)),
+        P::Infix(t) => format!("parse:Infix:{}", variant_name(t)),
+        other => format!("parse:{}", variant_name(other)),
+    }]
+}
+
+fn label_unify<E: std::fmt::Debug, T>(prefix: &str, e: &gluon_check::unify::Error<E, T>) -> String {
+    use gluon_check::unify::Error as U;
+    match e {
+        U::TypeMismatch(..) => format!("{}:TypeMismatch", prefix),
+        U::Substitution(s) => format!("{}:Substitution:{}", prefix, {
+            match s {
+                gluon_check::substitution::Error::Occurs(..) => "Occurs",
+            }
+        }),
+        U::Other(o) => format!("{}:Other:{}", prefix, variant_name(o)),
+    }
+}
+
+fn label_typecheck(h: &gluon_check::typecheck::HelpError<base::symbol::Symbol>) -> Vec<String> {
+    use gluon_check::typecheck::TypeError as T;
+    let mut v = vec![];
+    match &h.error {
+        T::Unification(_, _, errs) => {
+            for e in errs {
+                v.push(label_unify("tc:Unification", e));
+            }
+            if errs.is_empty() {
+                v.push("tc:Unification:<empty>".to_string());
+            }
+        }
+        T::KindError(e) => v.push(label_unify("tc:KindError", e)),
+        T::UnableToResolveImplicit(e) => v.push(format!("tc:Implicit:{}", variant_name(&e.kind))),
+        T::RecursionCheck(e) => v.push(format!("tc:RecursionCheck:{}", variant_name(e))),
+        other => v.push(format!("tc:{}", variant_name(other))),
+    }
+    if let Some(help) = &h.help {
+        v.push(format!("help:{}", variant_name(help)));
+    }
+    v
+}
+
+fn label_macro(e: &gluon::vm::macros::Error) -> Vec<String> {
+    // boxed `dyn Error`: classify by the first words of the message, identifiers/paths dropped
+    let msg = e.to_string();
+    let words: Vec<String> = msg
+        .split_whitespace()
+        .filter(|w| w.chars().all(|c| c.is_ascii_alphabetic()))
+        .take(4)
+        .map(|w| w.to_lowercase())
+        .collect();
+    vec![format!("macro:{}", words.join("_"))]
+}
+
+/// The variants (structural labels) the error-path generators aim at; what was not reached in a
+/// run is listed in the evidence (`unreached_error_variants`).
+/// Variants that no code path constructs any more (grep over check/src and parser/src: only the
+/// enum definition and the Display arm mention them) or that a `From` impl always converts away
+/// (kindcheck `Other(UndefinedType/UndefinedField)` -> `TypeError::UndefinedType/UndefinedField`,
+/// check/src/typecheck/error.rs:65-72); LALRPOP's `InvalidToken`/`ExtraToken` cannot arise with the
+/// external lexer and a grammar that reads to EOF.  Listed in the evidence, not expected.
+const NEVER_CONSTRUCTED: &[&str] = &[
+    "tc:NotAFunction", "tc:UndefinedRecord", "tc:Unification:Other:UnableToGeneralize",
+    "tc:KindError:Other:UndefinedType", "tc:KindError:Other:UndefinedField", "parse:InvalidToken", "parse:ExtraToken",
+];
+
+const EXPECTED_VARIANTS: &[&str] = &[
+    "tc:UndefinedVariable", "tc:NotAFunction", "tc:UndefinedType", "tc:UndefinedField", "tc:PatternError",
+    "tc:Unification:TypeMismatch", "tc:Unification:Substitution:Occurs", "tc:Unification:Other:UndefinedType",
+    "tc:Unification:Other:FieldMismatch", "tc:Unification:Other:SelfRecursiveAlias",
+    "tc:Unification:Other:UnableToGeneralize", "tc:Unification:Other:MissingFields",
+    "tc:Unification:Other:EscapingSkolem", "tc:KindError:TypeMismatch", "tc:KindError:Substitution:Occurs",
+    "tc:KindError:Other:UndefinedType", "tc:KindError:Other:UndefinedField",
+    "tc:RecursionCheck:InvalidRecursion", "tc:RecursionCheck:LastExprMustBeConstructor",
+    "tc:DuplicateTypeDefinition", "tc:DuplicateField", "tc:InvalidProjection", "tc:UndefinedRecord",
+    "tc:EmptyCase", "tc:Message", "tc:Implicit:MissingImplicit", "tc:Implicit:LoopInImplicitResolution",
+    "tc:Implicit:AmbiguousImplicit", "tc:TypeConstructorReturnsWrongType", "help:UndefinedFlatMapInDo",
+    "help:ExtraArgument", "parse:Token:EmptyCharLiteral", "parse:Token:UnexpectedChar", "parse:Token:UnexpectedEof",
+    "parse:Token:UnexpectedEscapeCode", "parse:Token:UnterminatedCharLiteral",
+    "parse:Token:UnterminatedStringLiteral", "parse:Token:InvalidRawStringDelimiter",
+    "parse:Token:NonParseableInt", "parse:Token:HexLiteralOverflow", "parse:Token:HexLiteralUnderflow",
+    "parse:Token:HexLiteralWrongPrefix", "parse:Token:HexLiteralIncomplete", "parse:Layout:UnindentedTooFar",
+    "parse:InvalidToken", "parse:UnexpectedToken", "parse:UnexpectedEof", "parse:ExtraToken",
+    "parse:Infix:ConflictingFixities", "parse:Infix:UndefinedFixity", "parse:Infix:InvalidFixity",
+    "parse:Infix:InvalidPrecedence", "parse:Message",
+];
+
 fn check_error(e: &gluon::Error, rep: &mut ErrReport) {
     match e {
-        gluon::Error::Parse(x) => check_infile("parse", x, rep),
-        gluon::Error::Typecheck(x) => check_infile("typecheck", x, rep),
-        gluon::Error::Macro(x) => check_infile("macro", x, rep),
+        gluon::Error::Parse(x) => check_infile("parse", x, rep, &label_parse),
+        gluon::Error::Typecheck(x) => check_infile("typecheck", x, rep, &label_typecheck),
+        gluon::Error::Macro(x) => check_infile("macro", x, rep, &label_macro),
         gluon::Error::Multiple(xs) => {
             for x in xs.iter() {
                 check_error(x, rep);
@@ -1247,7 +1736,7 @@ fn front_end_one(vm: &gluon::RootedThread, src: &str) -> serde_json::Value {
                 }
                 .to_string(),
             );
-            check_infile("parse", &salv.error, &mut rep);
+            check_infile("parse", &salv.error, &mut rep, &label_parse);
         }
     }
     // 2. the whole pipeline
@@ -1278,6 +1767,7 @@ fn front_end_one(vm: &gluon::RootedThread, src: &str) -> serde_json::Value {
         "status": status,
         "nerr": rep.n,
         "kinds": rep.kinds.into_iter().collect::<Vec<_>>(),
+        "variants": rep.variants,
         "problems": rep.problems,
     })
 }
@@ -1518,6 +2008,11 @@ fn account_front(out: &mut Out, c: &FrontCase, o: &FrontOutcome, what: &str) {
                 out.count(&format!("front:error-kind:{}", k));
             }
             out.add("front:errors-checked", v["nerr"].as_u64().unwrap_or(0));
+            if let Some(m) = v["variants"].as_object() {
+                for (k, n) in m {
+                    out.add(&format!("errvariant:{}", k), n.as_u64().unwrap_or(0));
+                }
+            }
             if let Some(ps) = v["problems"].as_array() {
                 let mut seen = BTreeSet::new();
                 for p in ps {
@@ -1557,7 +2052,18 @@ fn account_front(out: &mut Out, c: &FrontCase, o: &FrontOutcome, what: &str) {
             let fp = if so {
                 // coarse call shape: mutual recursion groups (`rec`) vs everything else
                 let has_rec = lex(&c.text).iter().any(|t| t.k == K::Rec);
-                format!("stackoverflow:{}:{}", what, if has_rec { "rec" } else { "plain" })
+                let has_forall = c.text.contains("forall");
+                format!(
+                    "stackoverflow:{}:{}",
+                    what,
+                    if has_rec {
+                        "rec"
+                    } else if has_forall {
+                        "forall"
+                    } else {
+                        "plain"
+                    }
+                )
             } else {
                 format!("abort:{}:{}", class, what)
             };
@@ -1756,6 +2262,13 @@ fn main() {
             cases.push(c);
         }
     }
+    // error-path family (per error variant a generator of ill-formed programs)
+    let n_err = if thorough { 6000 } else { 700 };
+    let mut rng_e = Rng::new(args.seed, 904);
+    for _ in 0..n_err {
+        let (text, fam, prelude) = gen_error_program(&mut rng_e);
+        cases.push(FrontCase { text: clip(text), origin: fam, prelude });
+    }
     let workers = std::thread::available_parallelism().map(|n| n.get()).unwrap_or(4).min(8).max(2);
     let t0 = Instant::now();
     let results = run_front_all(&cases, workers, WATCHDOG);
@@ -1864,5 +2377,16 @@ fn main() {
         depth_report.insert(shape, serde_json::Value::String(line.join(" ")));
     }
     out.stats.insert("depth_probes".into(), serde_json::Value::Object(depth_report));
+    let unreached: Vec<serde_json::Value> = EXPECTED_VARIANTS
+        .iter()
+        .filter(|v| !NEVER_CONSTRUCTED.contains(v))
+        .filter(|v| !out.stats.contains_key(&format!("errvariant:{}", v)))
+        .map(|v| serde_json::Value::String(v.to_string()))
+        .collect();
+    out.stats.insert("unreached_error_variants".into(), serde_json::Value::Array(unreached));
+    out.stats.insert(
+        "never_constructed_error_variants".into(),
+        serde_json::Value::Array(NEVER_CONSTRUCTED.iter().map(|v| serde_json::Value::String(v.to_string())).collect()),
+    );
     out.finish();
 }
